@@ -213,7 +213,7 @@ PROPS['C15'] = dict(
 )
 
 PROPS['C26'] = dict(
-    units=['k_mper'], level='proof', design_ref='6/C26',
+    units=['k_mper', 'k_fper'], level='proof', design_ref='6/C26',
     technique='CBMC harness contracts (one dfcc loop contract) on MemoryPersister::put(seq,text), put(sender,target), get(seq,text), get(sender&,target&), get_last_seqnum, '
               'find_nearest_highest_seqnum extracted from the clang AST of runtime/persist.cpp; std::map and std::string are assumed models in the single-witness abstraction '
               '(one arbitrary watched key exact, all other keys nondeterministic, maximum key tracked)',
@@ -224,8 +224,12 @@ PROPS['C26'] = dict(
          'inductive steps of "behaves like a map from sequence number to bytes plus one control record" for every sequence of these operations. Range retrieval '
          'MemoryPersister::get(from, to, session, callback) (dfcc loop contract over the iterator, every store and range): exactly the stored records of [from, to] (to = 0: up to the last) are '
          'handed to the callback, each once, in ascending order and with the stored text, then completion is signalled exactly once, and the count returned is the number handed over. '
-         'NOT decided: the whole FilePersister (lseek/read/write over two files), the history lemma as one composed statement.',
-    note='std::map / std::string are ASSUMED models (single-witness abstraction); FilePersister is not covered; the range-get callback is a model that always asks to continue; find_nearest_highest_seqnum(0, last) returns 0 '
+         'File persister (K-fper: FilePersister::put x2, get x2, get_last_seqnum, find_nearest_highest_seqnum, get(from, to, ..) from the clang AST over ghost models of the two files and the in-memory index): '
+         'put is refused for 0 / an occupied number / an unopened store and then writes nothing; it appends the text to the data file and one index record naming exactly that region; get reads '
+         'exactly the region the record names, into a buffer large enough for it (failed before fix 40e3b9c: a stored text longer than FIX8_MAX_MSG_LENGTH overflowed a stack buffer -- ASan); '
+         'the control record lives in slot 0 and control get returns the last pair put; last / nearest-highest / range retrieval as for the memory persister (loop contracts). '
+         'NOT decided: FilePersister::initialise (index replay on reopen), the history lemma as one composed statement.',
+    note='std::map / std::string / lseek / read / write are ASSUMED models (single-witness abstraction, ghost files); the range-get callback is a model that always asks to continue; find_nearest_highest_seqnum(0, last) returns 0 '
          'when a control record exists (key 0 is found first): requested >= 1 is a stated precondition (sequence numbers start at 1)',
     trusted_base=COMMON_TRUST,
     explanation='Each for-all-keys clause of the store contract is stated about one arbitrary ghost key; the map model answers exactly for that key and nondeterministically for every other, '
@@ -314,7 +318,7 @@ PROPS['C22'] = dict(
 )
 
 PROPS['C18'] = dict(
-    units=['k_rtx', 'k_send', 'k_mper'], level='proof', design_ref='6/C18',
+    units=['k_rtx', 'k_send', 'k_mper', 'k_fper'], level='proof', design_ref='6/C18',
     technique='CBMC harness contracts on Session::retrans_callback (per stored record and for the completion call) and Session::handle_resend_request extracted from the clang AST of '
               'runtime/session.cpp, with a ghost coverage counter (first number of the requested range not yet answered) and a ghost send log; the persister\'s range protocol, message '
               'generation and send() are assumed models',
@@ -326,7 +330,7 @@ PROPS['C18'] = dict(
          'persister\'s callback protocol (ASSUMED: ascending stored records of the range, then completion) every number of the range is answered exactly once, in ascending order. '
          'A replayed message (one that reaches send_process already carrying MsgSeqNum) keeps that number and goes out with PossDupFlag=Y and OrigSendingTime equal to its original SendingTime (k_send/send_possdup, proved-modular). '
          'That protocol is proved for the memory persister (k_mper/range: MemoryPersister::get(from, to, ..) hands over exactly the stored records of the range, ascending, then signals completion once). '
-         'NOT decided: FilePersister::get(from,to,..), the bytes of the replayed body.',
+         'and for the file persister (k_fper/range, each record read from the region its index entry names). NOT decided: the bytes of the replayed body.',
     note='persister range protocol, generate_sequence_reset, Message::factory and send are ASSUMED models; numbers below 2^31 in the request handler (it computes in int)',
     trusted_base=COMMON_TRUST,
     explanation='The whole-range statement is an induction over the callback sequence; the inductive step is the per-callback contract over the ghost coverage counter.',
@@ -404,6 +408,23 @@ PROPS['C05'] = dict(
     note='bounded stand-in (3 tokens, 3 traits), never counted as proved',
     trusted_base=COMMON_TRUST,
     explanation='Pass-through needs each unknown token to be owned by exactly one part; the obligation states that as "what a part keeps lies before what it hands on".',
+)
+
+PROPS['C27'] = dict(
+    units=['k_fper'], level='proof', design_ref='13/C27',
+    technique='CBMC harness contracts on FilePersister::put(seqnum, text) and put(sender, target) (clang AST of runtime/filepersist.cpp) over a ghost model of the index and data files in which every '
+              'system-call model asserts the crash invariant of the disk state after applying its effect -- a crash point is "after some completed system call"',
+    text='Crash invariant: every index record on disk names bytes that are on disk (so a reopen never maps a number to bytes that were not stored for it and a later append cannot slide under a '
+         'dangling record). Proved-modular for every store state, text size and system-call failure pattern: it holds after EVERY system call inside put(seqnum, text) (failed before fix 315f6e2, '
+         'which wrote the index record before the data: replayed as reopen + put(3) making get(2) return the bytes of 3); the index record is appended (no record overwritten) and names the '
+         'region that was already written; the text is appended to the data file. '
+         'KNOWN FINDING (refuted, replayed on the real code): put(sender, target) writes slot 0 of the index file although slot 0 holds a message record when a message was stored before any '
+         'control record -- put(1,..) put(2,..) put(10,20), reopen: get(1) fails. '
+         'NOT decided: FilePersister::initialise (what a reopen reconstructs from a given disk state, duplicate index entries), torn writes inside one write call, fsync / ordering below the '
+         'system-call interface, the purge / rotation path (C29).',
+    note='crash points are system-call boundaries of one operation; torn writes and the reopen procedure are not modelled; lseek/write are ASSUMED POSIX models',
+    trusted_base=COMMON_TRUST,
+    explanation='A crash leaves the disk in the state after some completed system call, so an invariant asserted inside every system-call model is checked at every crash point of the operation.',
 )
 
 # ---------------------------------------------------------------- native replayers
@@ -639,7 +660,22 @@ def _replay_k_dec(oid, inputs, trace, wd):
     return dict(steps=[dict(kind='native: real Message::factory (and Message::encode for the re-encoding) on generated FIX42 test classes, scenario ' + which, rc=rc, output=o[-1500:])], reproduced=rc == 1)
 
 
+
+def _replay_k_fper(oid, inputs, trace, wd):
+    R = _rp.astdump.REPO
+    if '.range.' in oid or 'nearest' in oid:
+        return _replay_k_seq('C18.' + oid, inputs, trace, wd)
+    exe = _rp.build_native(os.path.join(_rp.VERIF, 'replay', 'k_fper.cpp'), os.path.join(wd, 'replay_k_fper'),
+                           extra=[R + '/runtime/filepersist.cpp', R + '/runtime/persist.cpp', R + '/runtime/logger.cpp', R + '/runtime/f8utils.cpp', '-lz'], timeout=1200)
+    which = 'ctrl_overwrite' if 'overwrites_a_message_record' in oid else 'dangling' if ('C27.crash' in oid or 'C27.put' in oid) else 'long_record' if 'read_buffer' in oid else 'all'
+    sd = os.path.join(wd, 'fperscratch')
+    os.makedirs(sd, exist_ok=True)
+    rc, o = _rp.run_native(exe, [which, sd])
+    return dict(steps=[dict(kind='native: real FilePersister on scratch files, scenario ' + which + ' (ASan)', rc=rc, asan_report='AddressSanitizer' in o, output=o[-1500:])], reproduced=rc != 0)
+
+
 replayers['k_tok'] = _replay_k_tok
+replayers['k_fper'] = _replay_k_fper
 replayers['k_dec'] = _replay_k_dec
 replayers['k_fac'] = _replay_k_dec
 replayers['k_ghash'] = _replay_k_ghash
@@ -668,7 +704,6 @@ NOT_APPLICABLE = {
     'C13': 'quantifies over programs (schemas) and the behaviour of generated C++: no function contract within CBMC reach expresses "the emitted program implements the schema"',
     'C21': 'whole-system history over two processes, a lossy network, file persistence and restarts: not expressible as function contracts; its per-session steps are C16-C20/C26',
     'C25': 'quantifies over thread interleavings; the contract tooling here is sequential (atomics are plain variables)',
-    'C27': 'crash points are partial executions; function contracts speak about completed calls',
     'C30': 'all interleavings of a lock-free CAS protocol in C++ templates: outside sequential contracts',
     'C32': 'istream/regex/std::map-driven recursive parser: every step is an opaque library call, no C-expressible core with a tree-equality contract',
 }
